@@ -126,6 +126,31 @@ func mkTx(nonce uint64, keyIdx int, amount int64, data []byte) *types.Transactio
 	return s
 }
 
+var manyTxsCache []*types.Transaction
+
+// manyTxs: a fixed list of signed transactions for long blocks (signed once per process).
+func manyTxs() []*types.Transaction {
+	if manyTxsCache == nil {
+		for i := 0; i < 300; i++ {
+			manyTxsCache = append(manyTxsCache, mkTx(uint64(i), i%len(txKeys.priv), int64(i), []byte{byte(i), byte(i >> 8)}))
+		}
+	}
+	return manyTxsCache
+}
+
+// pickTx chooses a position in a list of n > 0 transactions, biased towards the ends
+// and towards the places where the encoding of the index changes.
+func pickTx(t *core.Tape, n int) int {
+	if t.Chance(1, 2) {
+		return t.Draw(n)
+	}
+	c := []int{0, n - 1, 126, 127, 128, 129, 255, 256}[t.Draw(8)]
+	if c >= n || c < 0 {
+		return t.Draw(n)
+	}
+	return c
+}
+
 func mkEvidence(t *core.Tape, vals *types.ValidatorSet, maxHeight uint64, blockTime time.Time, salt uint64) types.Evidence {
 	vi := t.Draw(len(vals.Validators))
 	h := uint64(t.Range(1, int(maxHeight)))
@@ -201,6 +226,15 @@ func buildBlock(c *ctx, payload int) *built {
 	if payload > 0 && nTx == 0 {
 		nTx = 1
 	}
+	if payload == 0 && t.Chance(1, 25) {
+		// now and then a long transaction list: the transaction root is built over
+		// RLP-encoded indices, whose encoding changes length at 128 (and the list is
+		// fed to the trie out of order around that boundary)
+		nTx = []int{126, 127, 128, 129, 130, 200, 256, 257, 300}[t.Draw(9)]
+		b.txs = append(b.txs, manyTxs()[:nTx]...)
+		nTx = 0
+		c.res.Probe("block-with-a-long-transaction-list")
+	}
 	for i := 0; i < nTx; i++ {
 		sz := t.Draw(80)
 		if payload > 0 {
@@ -230,7 +264,7 @@ func buildBlock(c *ctx, payload int) *built {
 		AppHash:            appHash,
 	}
 	b.block = types.NewBlock(hdr, b.txs, lastCommit, b.evidence, trie.NewStackTrie(nil))
-	b.shape += fmt.Sprintf(" lastVals=%d curVals=%d txs=%d ev=%d", nLast, len(b.curVals.Validators), nTx, nEv)
+	b.shape += fmt.Sprintf(" lastVals=%d curVals=%d txs=%d ev=%d", nLast, len(b.curVals.Validators), len(b.txs), nEv)
 	return b
 }
 
